@@ -358,8 +358,85 @@ static int c17_xcoef(toks_t *t)
   return 1;
 }
 
+/* vscript prec nc n (comps_in_scan i0 i1 i2 i3 Ss Se Ah Al)*n : the scan script handed to jpeg_start_compress() of a small image with
+ * nc components; R: "ok seq|prog|lossless [dec w|dec bad]" or "err code [parameter]" for the errors validate_script() raises.  For an
+ * accepted progressive script the file is completed and read back: "dec w" = number of JWRN_BOGUS_PROGRESSION warnings of the own
+ * decoder, "dec bad" = JERR_BAD_PROGRESSION.  Oracle: an accepted script yields a file the own decoder reads without error or warning. */
+static int c17_vscript(toks_t *t)
+{
+  int prec = (int)tl(t, 1), nc = (int)tl(t, 2), n = (int)tl(t, 3), i, k, y;
+  static jpeg_scan_info scans[64]; struct jpeg_compress_struct c; my_err_t e; unsigned char *jp = NULL; unsigned long jn = 0;
+  volatile int started = 0; static JSAMPLE row8[16 * 10]; static J12SAMPLE row12[16 * 10];
+  if (n > 64) n = 64;
+  if (t->n < 4 + 9 * n) { printf("R skip short\n"); return 1; }
+  for (i = 0; i < n; i++) {
+    scans[i].comps_in_scan = (int)tl(t, 4 + 9 * i);
+    for (k = 0; k < 4; k++) scans[i].component_index[k] = (int)tl(t, 5 + 9 * i + k);
+    scans[i].Ss = (int)tl(t, 9 + 9 * i); scans[i].Se = (int)tl(t, 10 + 9 * i); scans[i].Ah = (int)tl(t, 11 + 9 * i); scans[i].Al = (int)tl(t, 12 + 9 * i);
+  }
+  c.err = my_err_init(&e);
+  jpeg_create_compress(&c);
+  if (setjmp(e.jb)) {
+    int code = e.code;
+    if (!started && (code == JERR_BAD_SCAN_SCRIPT || code == JERR_COMPONENT_COUNT || code == JERR_BAD_PROG_SCRIPT)) printf("R err %d %d\n", code, e.pub.msg_parm.i[0]);
+    else if (!started && code == JERR_MISSING_DATA) printf("R err %d\n", code);
+    else {
+      /* an error raised after validate_script() accepted the script (e.g. a lossless script with a setting lossless mode refuses) */
+      printf("R ok %s\n", c.master && c.master->lossless ? "lossless" : c.progressive_mode ? "prog" : "seq");
+    }
+    jpeg_destroy_compress(&c); free(jp);
+    return 1;
+  }
+  jpeg_mem_dest(&c, &jp, &jn);
+  c.image_width = 16; c.image_height = 8; c.input_components = nc; c.in_color_space = nc == 1 ? JCS_GRAYSCALE : nc == 3 ? JCS_RGB : nc == 4 ? JCS_CMYK : JCS_UNKNOWN;
+  c.data_precision = prec;
+  jpeg_set_defaults(&c);
+  c.data_precision = prec;
+  if (nc == 3) jpeg_set_colorspace(&c, JCS_RGB); 
+  for (i = 0; i < c.num_components; i++) { c.comp_info[i].h_samp_factor = c.comp_info[i].v_samp_factor = 1; }
+  c.scan_info = scans; c.num_scans = n;
+  jpeg_start_compress(&c, TRUE);
+  started = 1;
+  {
+    const char *mode = c.master->lossless ? "lossless" : c.progressive_mode ? "prog" : "seq"; int isprog = c.progressive_mode && !c.master->lossless;
+    for (y = 0; y < 8; y++) {
+      for (i = 0; i < 16 * nc; i++) { row8[i] = (JSAMPLE)((i * 7 + y * 13) & 255); row12[i] = (J12SAMPLE)((i * 97 + y * 131) & 4095); }
+      if (prec == 12) { J12SAMPROW rp = row12; jpeg12_write_scanlines(&c, &rp, 1); } else { JSAMPROW rp = row8; jpeg_write_scanlines(&c, &rp, 1); }
+    }
+    jpeg_finish_compress(&c);
+    jpeg_destroy_compress(&c);
+    {
+      struct jpeg_decompress_struct d; my_err_t ed; int w = 0, bad = 0, other = 0, islossless = !strcmp(mode, "lossless");
+      d.err = my_err_init(&ed);
+      jpeg_create_decompress(&d);
+      if (setjmp(ed.jb)) { if (ed.code == JERR_BAD_PROGRESSION) bad = 1; else other = ed.code; }
+      else {
+        jpeg_mem_src(&d, jp, jn);
+        jpeg_read_header(&d, TRUE);
+        if (islossless) {
+          d.out_color_space = d.jpeg_color_space;
+          jpeg_start_decompress(&d);
+          while (d.output_scanline < d.output_height) {
+            if (prec == 12) { J12SAMPROW rp = row12; jpeg12_read_scanlines(&d, &rp, 1); } else { JSAMPROW rp = row8; jpeg_read_scanlines(&d, &rp, 1); }
+          }
+        } else (void)jpeg_read_coefficients(&d);
+        jpeg_finish_decompress(&d);
+      }
+      for (i = 0; i < ed.nwarn && i < 64; i++) if (ed.warn[i] == JWRN_BOGUS_PROGRESSION) w++;
+      jpeg_destroy_decompress(&d);
+      if (!isprog) printf("R ok %s\n", mode); else if (bad) printf("R ok prog dec bad\n"); else printf("R ok prog dec %d\n", w);
+      if (bad || w || other || ed.nwarn) printf("O fail vscript: the compressor accepted the scan script (%s), its own decoder %s (error %d, %d warnings, %d of them JWRN_BOGUS_PROGRESSION)\n", mode, bad ? "rejects the progression" : other ? "fails" : "warns", bad ? JERR_BAD_PROGRESSION : other, ed.nwarn, w);
+      else printf("O ok\n");
+    }
+  }
+  free(jp);
+  return 1;
+}
+
+
 static int dispatch_c17(toks_t *t)
 {
+  if (!strcmp(t->tok[0], "vscript") && t->n >= 4) return c17_vscript(t);
   if (!strcmp(t->tok[0], "creuse") && t->n >= 3) return c17_creuse(t);
   if (!strcmp(t->tok[0], "rstrows") && t->n >= 5) return c17_rstrows(t);
   if (!strcmp(t->tok[0], "cparam") && t->n >= 3) return c17_cparam(t);
